@@ -1,5 +1,5 @@
 """Entry point of ./check: generic flow shared by all properties (P, T and K obligations; §5 of DESIGN.md)."""
-import sys, os, json, time, re, argparse, importlib, concurrent.futures, hashlib
+import shutil, os, sys, os, json, time, re, argparse, importlib, concurrent.futures, hashlib
 from . import core
 from .core import log
 
@@ -13,8 +13,14 @@ class Violation:
 
 class Trace:
     """one op file to run in a fresh process on a fresh token directory"""
-    def __init__(self, name, ops, variant="plain", backend="file", conf_extra="", env=None):
+    def __init__(self, name, ops, variant="plain", backend="file", conf_extra="", env=None, fixture=None):
         self.name, self.ops, self.variant, self.backend, self.conf_extra, self.env = name, ops, variant, backend, conf_extra, env
+        self.fixture = fixture      # name of a golden token directory under /verif/fixtures: the trace runs on a copy of it, the model starts from its creation transcript
+
+
+def trace_header(t):
+    """first line of a replay file: how the trace has to be run (build variant, backend, extra configuration lines, golden fixture)"""
+    return "## trace variant=%s backend=%s fixture=%s conf_extra_hex=%s\n" % (t.variant, t.backend, getattr(t, "fixture", None) or "", (t.conf_extra or "").encode().hex())
 
 
 class TraceResult:
@@ -24,14 +30,19 @@ class TraceResult:
 
 
 def run_trace(trace, keepdir=None):
+    prefix = ""
     with core.Scratch("k") as sc:
         try:
+            if getattr(trace, "fixture", None):
+                fx = os.path.join(core.VERIF, "fixtures", trace.fixture)
+                shutil.copytree(os.path.join(fx, "tokens"), os.path.join(sc.dir, "tokens"), dirs_exist_ok=True)
+                prefix = open(os.path.join(fx, "creation.transcript")).read() + "reexec\n= 0\n"
             rc, out, err = core.run_harness(trace.ops, sc.dir, trace.variant, trace.backend, trace.conf_extra, env_extra=trace.env)
         except Exception as e:                      # timeout etc.
             return TraceResult(trace, -1, "", str(e), [], [], {}, True)
     lines = [l for l in out.splitlines() if l.strip()]
     crashed = rc != 0 or (len(lines) > 0 and not lines[-1].startswith("=")) or any("CRASH" in l for l in lines[-2:])
-    drc, dout = core.run_driver(out)
+    drc, dout = core.run_driver(prefix + out)
     mism, unp, hist, summ = core.parse_driver(dout)
     return TraceResult(trace, rc, out, err, mism, unp, hist, crashed)
 
@@ -63,7 +74,7 @@ def shrink(trace, keeps, budget_s=40):
     `keeps(TraceResult) -> bool` says whether the interesting behaviour is still there."""
     t0 = time.time()
     lines = trace.ops.rstrip("\n").split("\n")
-    def mk(ls): return Trace(trace.name, "\n".join(ls) + "\n", trace.variant, trace.backend, trace.conf_extra, trace.env)
+    def mk(ls): return Trace(trace.name, "\n".join(ls) + "\n", trace.variant, trace.backend, trace.conf_extra, trace.env, getattr(trace, 'fixture', None))
     n = 2
     live = [i for i, l in enumerate(lines) if l != "nop"]
     while len(live) >= 2 and time.time() - t0 < budget_s:
@@ -142,7 +153,9 @@ def main(argv):
     pid = a.pid
     mod = importlib.import_module("vlib.props." + pid)
     t0 = time.time()
-    stamp = core.ensure_build(getattr(mod, "VARIANTS", ("plain",)))
+    variants = getattr(mod, "VARIANTS", ("plain",))
+    if callable(variants): variants = variants(a.tier)
+    stamp = core.ensure_build(variants)
     ctx = Ctx(pid, a.tier, seed, stamp)
     if a.replay:
         return replay(mod, ctx, a.replay)
@@ -154,7 +167,9 @@ def replay(mod, ctx, path):
     if path.endswith(".json"):
         print(text); return 1
     ops = "\n".join(l for l in text.splitlines() if not l.startswith("##")) + "\n"
-    tr = Trace("replay", ops, getattr(mod, "REPLAY_VARIANT", "plain"))
+    hdr = dict(kv.split("=", 1) for l in text.splitlines() if l.startswith("## trace ") for kv in l.split()[2:] if "=" in kv)
+    tr = Trace("replay", ops, hdr.get("variant", getattr(mod, "REPLAY_VARIANT", "plain")), hdr.get("backend", "file"),
+               bytes.fromhex(hdr.get("conf_extra_hex", "")).decode(), None, hdr.get("fixture") or None)
     r = run_trace(tr)
     print(r.transcript)
     for m in r.mism: print(m)
@@ -311,5 +326,5 @@ def k_suite(ctx, kres, suite_name, traces, in_projection, sig_of=None, direct=No
                 f2 = pick_mismatch(rr, in_projection, rank)
                 return f2 is not None and in_projection(f2) and (sig_of(f2) if sig_of else "%s.%s" % (f2["op"], f2["cat"])) == s
             small = shrink(r.trace, keeps, shrink_budget) if shrink_budget else r.trace
-            viols.append(Violation(s, text + "\n(trace %s of suite %s)" % (r.trace.name, suite_name), small.ops))
+            viols.append(Violation(s, text + "\n(trace %s of suite %s)" % (r.trace.name, suite_name), trace_header(small) + small.ops))
     return viols
